@@ -104,10 +104,11 @@ class Spec:
                 out.append(dict(pc=list(ctx.pc), ax=list(ctx.axioms), exc=res))
                 continue
             r, w, a = res
-            if not isinstance(r, G) or r.bax != 0 or r.tshape != (3,) or len(r.blocks) != 1 or r.tag is not None:
-                out.append(dict(pc=list(ctx.pc), ax=list(ctx.axioms), exc=TypeError(f"result is not a full (n,3) array: {r!r}")))
+            want_shape = getattr(self, "out_shape", (3,))
+            if not isinstance(r, G) or r.bax != 0 or r.tshape != want_shape or len(r.blocks) != 1 or r.tag is not None:
+                out.append(dict(pc=list(ctx.pc), ax=list(ctx.axioms), exc=TypeError(f"result is not a full (n,{','.join(map(str, want_shape))}) array: {r!r}")))
                 continue
-            outs = [asreal(t) for t in r.blocks[0]]
+            outs = [asreal(t) for t in r.blocks[0].flat]
             outs, un = eliminate_uninit(list(ctx.pc) + list(ctx.axioms), outs)
             if un is False:
                 self.problems.append("uninitialised memory (np.empty) may reach the result")
@@ -450,5 +451,9 @@ _regc(Spec("dipole_Hfield", "field_BH_dipole", "dipole_Hfield", dict(observers=(
            lengths=("observers",), has_field=False))
 _regc(Spec("triangle_Bfield", "field_BH_triangle", "triangle_Bfield", dict(observers=(3,), vertices=(3, 3), polarizations=(3,)), {}, "core",
            pol="polarizations", lengths=("observers", "vertices"), has_field=False))
+_chir = Spec("check_chirality", "field_BH_tetrahedron", "check_chirality", dict(points=(4, 3)), {}, "core", pol=None, homog=1, lengths=("points",), has_field=False)
+_chir.out_shape = (4, 3)
+_chir.writes_argument_by_contract = True  # documented: reorders its argument in place; its call sites hand it fresh copies (C08)
+_regc(_chir)
 # current_polyline_Hfield also runs under the shim (2 paths, ~20 s), but "np.empty never reaches the result" and the non-interference
 # obligation need nonlinear real arithmetic that z3/cvc5 do not finish in 30 s: left as an ASSUMED contract (not registered).
